@@ -243,6 +243,11 @@ fn corpus() -> Vec<Vec<i64>> {
         v.push(cont(dir, 2, 20.0, 10.0, vec![plain(10.0, 0.3, 0.3), plain(20.0, 0.3, 0.3)]));
         // auto margins with a gap
         v.push(cont(dir, 4, 100.0, 10.0, vec![plain(20.0, 0.0, 0.0), item(Some(20.0), None, None, None, 0.0, 0.0, None, Some(0.0), [0.0; 4], 0.0)]));
+        // witness of C07_exhausted_laid_out_sizes_refuted (finding pb-floor): explicit min/max below padding+border
+        v.push(cont(dir, 2, 100.0, 0.0, vec![
+            plain(100.0, 0.0, 1.0),
+            item(Some(50.0), None, Some(5.0), Some(10.0), 0.0, 1.0, Some(0.0), Some(0.0), [20.0, 0.0, 0.0, 0.0], 0.0),
+        ]));
         // min > max, zero basis, content-based automatic minimum
         v.push(cont(dir, 6, 100.0, 0.0, vec![
             item(Some(0.0), None, Some(30.0), Some(20.0), 1.0, 1.0, Some(0.0), Some(0.0), [0.0; 4], 0.0),
